@@ -3,12 +3,14 @@ package drivers
 import (
 	"encoding/json"
 	"fmt"
+	"math/rand"
 	"os"
 	"path/filepath"
 	"runtime"
 	"strings"
 	"sync"
 	"sync/atomic"
+	"time"
 
 	"verif/harness/disk"
 	"verif/harness/model"
@@ -33,6 +35,10 @@ type syncInput struct {
 	Differs []string     `json:"differs,omitempty"`
 	HistOps [][]string   `json:"histOps,omitempty"`
 	Step    int          `json:"step,omitempty"`
+	// schedule mode
+	SchedSeed int64 `json:"schedSeed,omitempty"`
+	DelayUS   int   `json:"delayUs,omitempty"`
+	Procs     int   `json:"procs,omitempty"`
 }
 
 func runSyncInput(c *Ctx, caseNo int, in syncInput) ([]vt.Ev, *SyncResult, error) {
@@ -55,8 +61,28 @@ func runSyncInput(c *Ctx, caseNo int, in syncInput) ([]vt.Ev, *SyncResult, error
 	if err != nil {
 		return nil, nil, err
 	}
-	res, err := RunSync(caseNo, src, dst, SyncOpts{Mode: in.Mode, Differ: in.Differ, CapS2R: in.CapS, CapR2S: in.CapR,
-		Extra: vt.Ev{"input": vt.Opaque(in), "src": srcSnap.Ev(), "origin": in.Origin}})
+	o := SyncOpts{Mode: in.Mode, Differ: in.Differ, CapS2R: in.CapS, CapR2S: in.CapR,
+		Extra: vt.Ev{"input": vt.Opaque(in), "src": srcSnap.Ev(), "origin": in.Origin}}
+	if in.DelayUS > 0 {
+		// seeded per-operation delays on the stream (both endpoints, before and after each operation)
+		var mu sync.Mutex
+		r := rand.New(rand.NewSource(in.SchedSeed))
+		o.Gate = func(ep, op string, k int) {
+			mu.Lock()
+			d := 0
+			if r.Intn(3) == 0 {
+				d = r.Intn(in.DelayUS)
+			}
+			mu.Unlock()
+			if d > 0 {
+				time.Sleep(time.Duration(d) * time.Microsecond)
+			}
+		}
+	}
+	if in.Procs > 0 {
+		defer runtime.GOMAXPROCS(runtime.GOMAXPROCS(in.Procs))
+	}
+	res, err := RunSync(caseNo, src, dst, o)
 	if err != nil {
 		return nil, nil, err
 	}
@@ -97,6 +123,9 @@ func Sync(c *Ctx) error {
 	}
 	if c.What == "hist" {
 		return syncHistories(c)
+	}
+	if c.What == "sched" {
+		return syncSchedules(c)
 	}
 	var inputs []syncInput
 	uni := SmallUniverse()
@@ -365,5 +394,66 @@ func syncHistories(c *Ctx) error {
 		}
 	}
 	c.Stats.Rule = "one case = one sync of an edit history step; non-trivial = a real edit step that leaves at least one regular file untouched; distinct by (previous tree, new tree, differ)"
+	return nil
+}
+
+// syncSchedules: a few (source, prior destination) cases, each executed under
+// many schedules: stream capacities 0..64, seeded per-operation delays,
+// GOMAXPROCS 1..16 (C08).  Runs are sequential so that GOMAXPROCS is per run.
+func syncSchedules(c *Ctx) error {
+	nCases, nSched := 5, 24
+	if c.Thorough() {
+		nCases, nSched = 30, 120
+	}
+	if os.Getenv("VERIF_RACE") != "" { // race-detector build: 5-10x slower
+		nCases, nSched = 2, 10
+		if c.Thorough() {
+			nCases, nSched = 8, 40
+		}
+	}
+	o := genOpts{MaxEntries: 45, Special: false, Xattrs: true, Links: true, BigFiles: true}
+	c.Stats.Rule = "one case = one real transfer of a fixed (source, prior destination) pair under one schedule (capacities, delay seed, GOMAXPROCS); non-trivial = at least 5 multi-chunk files in flight; distinct by (pair, schedule)"
+	for ci := 0; ci < nCases; ci++ {
+		src := RandomTree(c.Rand, o)
+		// make sure many multi-chunk files are in flight at once
+		for k := 0; k < 12; k++ {
+			e := newFile(c.Rand, o)
+			e.Size = int64(40000 + c.Rand.Intn(90000))
+			e.Data = fileData(e.DSeed, int(e.Size))
+			e.Content = model.ContentID(e.Data)
+			e.Path = fmt.Sprintf("big%02d", k)
+			if src.Find(e.Path) == nil {
+				src = append(src, e)
+			}
+		}
+		src.Sort()
+		var dst model.Tree
+		if ci%2 == 1 {
+			dst, _ = MutateTree(c.Rand, src, o, 6)
+		}
+		for si := 0; si < nSched; si++ {
+			in := syncInput{Src: src, Dst: dst, Mode: "dirty", Differ: "metadata", Origin: fmt.Sprintf("sched/case%d", ci),
+				CapS: []int{0, 1, 2, 7, 32, 64}[c.Rand.Intn(6)], CapR: []int{0, 1, 2, 7, 32, 64}[c.Rand.Intn(6)],
+				SchedSeed: c.Rand.Int63(), DelayUS: []int{0, 50, 300, 1500}[c.Rand.Intn(4)], Procs: []int{1, 2, 4, 16}[si%4]}
+			evs, res, err := runSyncInput(c, c.NextCase(), in)
+			if err != nil {
+				return err
+			}
+			for _, e := range evs {
+				c.Out.Emit(e)
+			}
+			c.Stats.Case(vt.Opaque(struct {
+				C, S int
+			}{ci, si}), true)
+			c.Stats.Count("runs", 1)
+			c.Stats.Count(fmt.Sprintf("procs:%d", in.Procs), 1)
+			if res.SOK && res.ROK {
+				c.Stats.Count("bothOK", 1)
+			}
+			if si == 0 {
+				c.Stats.Sample(vt.Ev{"case": ci, "entries": len(src), "priorEntries": len(dst), "schedule": vt.Ev{"capS2R": in.CapS, "capR2S": in.CapR, "delayUs": in.DelayUS, "procs": in.Procs}})
+			}
+		}
+	}
 	return nil
 }
